@@ -258,3 +258,74 @@ theorem C06_reported_count_is_the_history (D : Dataset) (hc : D.Consistent) :
     exact realises_rep false a d _ none _ _ (hreal i hi1 hi2).2
 
 end Pyham
+
+namespace Pyham
+
+theorem sum_pred_add_length (xs : List (Node × List Node)) (h : ∀ e ∈ xs, e.2 ≠ []) :
+    (xs.map fun e => e.2.length - 1).sum + xs.length = (xs.map (·.2.length)).sum := by
+  induction xs with
+  | nil => rfl
+  | cons e xs ih =>
+    have he : e.2.length ≥ 1 := by
+      have := h e (by simp)
+      cases hl : e.2 with
+      | nil => exact absurd hl this
+      | cons _ _ => simp
+    have ih' := ih (fun e' he' => h e' (by simp [he']))
+    simp only [List.map_cons, List.sum_cons, List.length_cons]
+    omega
+
+/-- **the number of duplication events of any comparison between ancestral genomes, END TO END**: events + lineages crossing
+    `a` = duplicated copies + lost + retained, every term on the right and the lineage count being functions of the histories
+    (the events are the sum over the duplicated ancestors of (copies − 1); there are as many duplicated ancestors as lineages at
+    `a` that are neither lost nor retained) -/
+theorem C06_number_duplications_is_the_history (D : Dataset) (hc : D.Consistent) :
+    ∃ H, load D.T D.nm D.file = .ok H ∧ ∀ a d, a ≠ d → D.T.isInternalAt a = true → D.T.isInternalAt d = true →
+      (hogsMap H a d).ndup + (D.fams.map fun f => lineagesAt a f.1 f.2).sum =
+        (D.fams.map fun f => reportedAt true a d f.1 none f.2).sum + (D.fams.map fun f => extinctAt a d f.1 f.2).sum +
+          (D.fams.map fun f => reportedAt false a d f.1 none f.2).sum := by
+  obtain ⟨H, hl, hrep⟩ := C06_reported_count_is_the_history D hc
+  obtain ⟨H2, hl2, hlost⟩ := C06_lost_count_is_the_history D hc
+  obtain ⟨H3, hl3, hsz⟩ := C04_counts_are_lineages D hc
+  obtain ⟨H4, hl4, _, _, hwc, hse, _⟩ := loaded_consistent D hc
+  have e2 : H2 = H := by rw [hl] at hl2; cases hl2; rfl
+  have e3 : H3 = H := by rw [hl] at hl3; cases hl3; rfl
+  have e4 : H4 = H := by rw [hl] at hl4; cases hl4; rfl
+  rw [e2] at hlost; rw [e3] at hsz; rw [e4] at hwc hse
+  refine ⟨H, hl, ?_⟩
+  intro a d hne hia hid
+  obtain ⟨hd, hr⟩ := hrep a d
+  have hlo := hlost a d hne hia hid
+  have hs := hsz a hia
+  have hsize := (C05_ancestor_size H hwc a d)
+  have hsound := (C06_entries_sound H hwc a d).2
+  have hsum := sum_pred_add_length (hogsMap H a d).dupl (fun e he => (hsound e he).2.2)
+  have hnd : (hogsMap H a d).ndup = ((hogsMap H a d).dupl.map fun e => e.2.length - 1).sum :=
+    C06_number_duplications H a d
+  -- the genome at a: registered size = located members
+  have hgs : H.genomeSize a = (H.nodesAt a).length := by
+    have := hse
+    simp only [Ham.sizesExact, List.all_eq_true, beq_iff_eq] at this
+    by_cases hm : a ∈ H.tree.allTaxa
+    · exact this a hm
+    · -- an internal taxon of the dataset's tree is a taxon of the analysis' tree
+      exfalso
+      have htree : H.tree = D.T := by
+        have := hl
+        simp only [load, buildHam, bind, Except.bind] at this
+        split at this
+        · cases this
+        · split at this
+          · cases this
+          · split at this
+            · cases this
+            · cases this; rfl
+      rw [htree, mem_allTaxa_iff] at hm
+      unfold STree.isInternalAt at hia
+      cases hsub : D.T.sub a with
+      | none => rw [hsub] at hia; simp at hia
+      | some x => rw [hsub] at hm; simp at hm
+  rw [← hs, hgs, hsize, hnd, ← hd, ← hlo, ← hr]
+  omega
+
+end Pyham
